@@ -266,7 +266,14 @@ def parse(path: str) -> UnitSpec:
             m = re.match(r"^(\d+)\s+(ghost|invariant|decreases|body_start|body_end|after)\s+(.*)$", rest, re.S)
             if not m:
                 raise SpecError(f"{path}:{ln}: bad loop entry")
-            cur.loops.setdefault(int(m.group(1)), {}).setdefault(m.group(2), []).append(m.group(3).strip())
+            val = m.group(3).strip()
+            lm = _label_re.match(val) if m.group(2) == "invariant" else None
+            if lm:
+                lab = lm.group(1)
+                if "." not in lab or not lab.startswith("C"):
+                    lab = f"{u.prop}.{lab}"
+                val = f"[{lab}] {lm.group(2).strip()}"
+            cur.loops.setdefault(int(m.group(1)), {}).setdefault(m.group(2), []).append(val)
         elif head in ("after_let", "before_let"):
             m = re.match(r"^([A-Za-z_][A-Za-z0-9_]*)(?:#(\d+))?\s+(.*)$", rest, re.S)
             (cur.after_let if head == "after_let" else cur.before_let).append((m.group(1), int(m.group(2) or 1), m.group(3)))
